@@ -31,13 +31,14 @@ func (r *vxRec) PreReadHeader(erpc.PreCtx) error              { r.hooks++; retur
 // hook runs unless the authentication exchange completed successfully.
 // args: first(0 AUTH_CALL frame with symbolic token, 1 CALL frame first, 2 frame with symbolic type,
 //             3 arbitrary bytes, 4 nothing), nBytes (for 3), pipelined(0/1: a CALL frame follows), otherPluginAfter(0/1),
-//       [setID(0/1): the verifier calls SetID before deciding][, retry(0/1): the verifier calls its receive function again after a failed receive]
+//       [setID(0/1): the verifier calls SetID before deciding][, retry(0/1): the verifier calls its receive function again after a failed receive][, panics(0/1): the verifier panics on what it rejects]
 func VX_C16_Auth(args []int) {
 	first, nBytes, pipelined, after := args[0], args[1], args[2], args[3]
 	rec := &vxRec{}
 	recvCalls := 0
 	setID := len(args) > 4 && args[4] == 1
 	retry := len(args) > 5 && args[5] == 1
+	panics := len(args) > 6 && args[6] == 1 // a verifier that panics (instead of returning a status) on what it rejects
 	checker := NewCheckerPlugin(func(sess Session, fn RecvOnce) (interface{}, *erpc.Status) {
 		var info []byte
 		recvCalls++
@@ -45,6 +46,10 @@ func VX_C16_Auth(args []int) {
 			sess.SetID("claimed-user") // the verifier names the session after the claimed identity before checking it
 		}
 		if stat := fn(&info); !stat.OK() {
+			if panics {
+				var missing *[]byte
+				return *missing, nil // nil dereference
+			}
 			if retry {
 				// a verifier that tries to receive once more after a failed receive
 				return nil, fn(&info)
@@ -53,6 +58,10 @@ func VX_C16_Auth(args []int) {
 		}
 		if len(info) == 1 && info[0] == 'T' {
 			return []byte("welcome"), nil
+		}
+		if panics {
+			parts := []string{"user"}
+			return parts[len(info)+1], nil // index out of range
 		}
 		return nil, erpc.NewStatus(erpc.CodeUnauthorized, "bad token", "")
 	})
